@@ -343,7 +343,13 @@ pub fn observe(rt: &tokio::runtime::Runtime, reader: &dyn TilesReaderTrait, src:
 					looked.entry((c.z, c.y, c.x)).or_insert_with(|| lookup(rt, reader, src, c.z, c.x, c.y));
 				}
 			}
-			streams.push(stream(rt, reader, src, b));
+			let sres = stream(rt, reader, src, b);
+			// every coordinate the stream DELIVERED is looked up as well (a large box is not looked up cell by cell)
+			for it in sres["res"].as_array().unwrap() {
+				let (z, x, y) = (it[0].as_u64().unwrap() as u8, it[1].as_u64().unwrap() as u32, it[2].as_u64().unwrap() as u32);
+				looked.entry((z, y, x)).or_insert_with(|| lookup(rt, reader, src, z, x, y));
+			}
+			streams.push(sres);
 		}
 	}
 	let expect: Vec<Value> = looked.iter().filter(|(_, r)| **r > 0 || **r == RES_UNKNOWN).map(|((z, y, x), r)| json!([z, x, y, r])).collect();
@@ -376,7 +382,7 @@ pub fn run_case(rt: &tokio::runtime::Runtime, dir: &Path, case: &Value, n: usize
 	};
 	phase("write");
 	let (write_ok, write_err) = produce(rt, case, &src, &path);
-	phase("read");
+	phase("decode");
 	let mut ev = json!({"ev":"case","id":n,"origin":case["origin"].as_str().unwrap_or("writer"),"fmt":src.fmt,"tf":src.tf,"tc":src.tc,
 		"tiles":src.tiles_json(),"write_ok":write_ok as u8,"write_err":write_err,"choices":case.get("choices").cloned().unwrap_or(json!({})),
 		"via":case.get("via").cloned().unwrap_or(json!("file"))});
@@ -386,6 +392,7 @@ pub fn run_case(rt: &tokio::runtime::Runtime, dir: &Path, case: &Value, n: usize
 	let mut walk = 0;
 	let (mut lookups, mut absent, mut streams, mut expect) = (json!([]), json!([]), json!([]), json!([]));
 	if write_ok {
+		phase("read");
 		// "via": "http" -- the same file through the HTTP data reader (range requests against a local server)
 		let via_http = case.get("via").and_then(|v| v.as_str()) == Some("http");
 		let _server = if via_http { Some(crate::httpd::RangeServer::start(path.parent().unwrap())) } else { None };
@@ -580,7 +587,13 @@ pub fn isolated(input: &str, output: &str, dir: &str, only: &str) -> Value {
 						} else {
 							let c = &cases[i];
 							let src = source_of(c);
-							let in_read = std::fs::read_to_string(&pphase).map(|p| p == "read").unwrap_or(false);
+							let ph = std::fs::read_to_string(&pphase).unwrap_or_default();
+							if ph == "decode" {
+								// the INDEPENDENT decoder of this harness died or hung: that says nothing about the code under test
+								eprintln!("isolated case {i}: the harness's own decoder did not finish ({status})");
+								std::process::exit(6);
+							}
+							let in_read = ph == "read";
 							json!({"ev":"case","origin":c["origin"].as_str().unwrap_or("writer"),"fmt":src.fmt,"tf":src.tf,"tc":src.tc,"tiles":src.tiles_json(),
 								"write_ok": in_read as u8, "write_err": if in_read { String::new() } else { status.clone() }, "choices": c.get("choices").cloned().unwrap_or(json!({})),
 								"decoded": {"skip":1,"ok":0,"tiles":[],"tf":"","tc":"","layout":{}},
